@@ -36,6 +36,8 @@ def run(case):
         if raises: raise ValueError('body')
         return ret
     ns['call'] = call
+    for alias in ('patch', 'validate', 'deal', 'd', 'id', 'items', 'update'):      # the same method under other names (some collide with names the machinery uses)
+        ns[alias] = call
     ns['smethod'] = staticmethod(lambda ret: ret)
     ns['cmethod'] = classmethod(lambda cls, ret: ret)
     ns['prop'] = property(lambda self: 42)
@@ -66,7 +68,7 @@ def run(case):
     for op in hist:
         try:
             if op[0] == 'set': setattr(obj, op[1], op[2]); r = 'ok N'
-            elif op[0] == 'call': r = 'ok ' + show(obj.call(op[1], op[2], op[3]))
+            elif op[0] == 'call': r = 'ok ' + show(getattr(obj, op[4] if len(op) > 4 else 'call')(op[1], op[2], op[3]))
             elif op[0] == 'static': r = 'ok ' + show(obj.smethod(op[1]) if op[1] % 2 else obj.cmethod(op[1]))
             elif op[0] == 'switch':
                 (deal.enable if op[1] else deal.disable)(); r = 'ok N'
